@@ -940,3 +940,162 @@ Proof.
   rewrite (map_nth_d (fun c0 => mode (map (fun b => nth c0 b 0) batches)) (seq 0 nc) 0%nat _ c eq_refl).
   rewrite seq_nth by exact Hc. reflexivity.
 Qed.
+
+(* ---------------------------------------------------------------------- *)
+(* detrend: the coherence of the first and last channel is compared with itself   *)
+Section DetrendProofs.
+Variable F : Type.
+Variable O : ops F.
+Local Notation zero := (f0 O).
+Local Notation "a <f b" := (fltb O a b = true) (at level 70).
+Hypothesis Fth : field_theory zero (f1 O) (fadd O) (fmul O) (fsub O) (fopp O) (fdiv O) (finv O) eq.
+Add Field Ffield2 : Fth.
+Hypothesis lt_irrefl : forall a, fltb O a a = false.
+Hypothesis lt_trans : forall a b c, a <f b -> b <f c -> a <f c.
+Hypothesis lt_total : forall a b, a <f b \/ a = b \/ b <f a.
+Set Default Proof Using "Fth lt_irrefl lt_trans lt_total".
+
+Lemma filter_cover {A} (p q : A -> bool) l :
+  (forall v, In v l -> p v = true \/ q v = true) ->
+  (length l <= length (filter p l) + length (filter q l))%nat.
+Proof.
+  induction l as [|a l IH]; intros H; cbn; [lia|].
+  specialize (IH (fun v Hv => H v (or_intror Hv))).
+  destruct (H a (or_introl eq_refl)) as [E|E]; rewrite E; destruct (p a), (q a); cbn; lia.
+Qed.
+
+(* in a window of 2h+1 entries, two entries that both have at most h entries strictly below and
+   at most h strictly above are equal: `median` returns THE middle order statistic *)
+Lemma is_median_unique h l m1 m2 :
+  length l = (2 * h + 1)%nat ->
+  is_median O h m1 l = true -> is_median O h m2 l = true -> m1 = m2.
+Proof.
+  intros Hlen H1 H2. unfold is_median in *. apply andb_true_iff in H1, H2.
+  destruct H1 as [L1 G1], H2 as [L2 G2]. apply Nat.leb_le in L1, G1, L2, G2.
+  unfold count_lt, count_gt in *.
+  destruct (lt_total m1 m2) as [H|[H|H]]; [exfalso | exact H | exfalso].
+  - pose proof (filter_cover (fun v => fltb O v m2) (fun v => fltb O m1 v) l) as Hc.
+    assert (Hcov : forall v, In v l -> fltb O v m2 = true \/ fltb O m1 v = true).
+    { intros v _. destruct (lt_total v m2) as [Hv|[Hv|Hv]]; [now left | right; now subst | right].
+      eapply lt_trans; eauto. }
+    specialize (Hc Hcov). lia.
+  - pose proof (filter_cover (fun v => fltb O v m1) (fun v => fltb O m2 v) l) as Hc.
+    assert (Hcov : forall v, In v l -> fltb O v m1 = true \/ fltb O m2 v = true).
+    { intros v _. destruct (lt_total v m1) as [Hv|[Hv|Hv]]; [now left | right; now subst | right].
+      eapply lt_trans; eauto. }
+    specialize (Hc Hcov). lia.
+Qed.
+
+Lemma filter_repeat_irrefl_l v n : filter (fun u => fltb O u v) (repeat v n) = [].
+Proof. induction n; cbn; [reflexivity|]. now rewrite lt_irrefl. Qed.
+Lemma filter_repeat_irrefl_r v n : filter (fun u => fltb O v u) (repeat v n) = [].
+Proof. induction n; cbn; [reflexivity|]. now rewrite lt_irrefl. Qed.
+
+Lemma filter_length_le {A} (p : A -> bool) l : (length (filter p l) <= length l)%nat.
+Proof. induction l as [|a l IH]; cbn; [lia|]. destruct (p a); cbn; lia. Qed.
+
+(* six equal entries among eleven are the median *)
+Lemma majority_median a b v :
+  (length a + length b = 5)%nat -> median O 5 (a ++ repeat v 6 ++ b) = v.
+Proof.
+  intros Hab. set (l := a ++ repeat v 6 ++ b).
+  assert (Hlen : length l = (2 * 5 + 1)%nat).
+  { unfold l. rewrite !app_length, repeat_length. lia. }
+  assert (Hv : is_median O 5 v l = true).
+  { unfold is_median, count_lt, count_gt, l. rewrite !filter_app, !app_length.
+    rewrite filter_repeat_irrefl_l, filter_repeat_irrefl_r. cbn [length].
+    pose proof (filter_length_le (fun u => fltb O u v) a). pose proof (filter_length_le (fun u => fltb O u v) b).
+    pose proof (filter_length_le (fun u => fltb O v u) a). pose proof (filter_length_le (fun u => fltb O v u) b).
+    apply andb_true_iff. split; apply Nat.leb_le; lia. }
+  assert (Hin : In v l).
+  { unfold l. apply in_or_app. right. apply in_or_app. left. now left. }
+  unfold median. destruct (find (fun m => is_median O 5 m l) l) as [m|] eqn:E.
+  - apply find_some in E. destruct E as [_ E]. eapply is_median_unique; eauto.
+  - exfalso. pose proof (find_none _ _ E v Hin) as Hn. cbn in Hn. congruence.
+Qed.
+
+Lemma firstn_repeat {A} (a : A) n k : (k <= n)%nat -> firstn k (repeat a n) = repeat a k.
+Proof.
+  revert n; induction k as [|k IH]; intros [|n] H; cbn; try lia; auto. rewrite IH by lia. reflexivity.
+Qed.
+
+Lemma detrend11_length (x : list F) : length (detrend11 O x) = length x.
+Proof. unfold detrend11. now rewrite map_length, seq_length. Qed.
+
+Lemma detrend11_nth (x : list F) t : (t < length x)%nat ->
+  nth t (detrend11 O x) zero =
+  fsub O (nth t x zero)
+       (median O 5 (firstn 11 (skipn (S t) (repeat (hd zero x) 6 ++ x ++ repeat (last x zero) 6)))).
+Proof.
+  intros Ht. unfold detrend11.
+  set (g := fun t0 => fsub O (nth t0 x zero) (median O 5 (firstn 11 (skipn (S t0)
+               (repeat (hd zero x) 6 ++ x ++ repeat (last x zero) 6))))).
+  rewrite (nth_indep _ zero (g 0%nat)) by now rewrite map_length, seq_length.
+  rewrite (map_nth_d g (seq 0 (length x)) 0%nat _ t eq_refl), seq_nth by exact Ht. reflexivity.
+Qed.
+
+(* first channel: the window is 5 pads + x[0] + 5 more entries *)
+Lemma detrend11_first x0 (r : list F) : nth 0 (detrend11 O (x0 :: r)) zero = zero.
+Proof.
+  rewrite detrend11_nth by (cbn; lia). cbn [hd nth].
+  set (pads := repeat (last (x0 :: r) zero) 6).
+  assert (E : firstn 11 (skipn 1 (repeat x0 6 ++ (x0 :: r) ++ pads)) =
+              [] ++ repeat x0 6 ++ firstn 5 (r ++ pads)).
+  { cbn [repeat app skipn firstn]. reflexivity. }
+  rewrite E, majority_median; [ring|].
+  cbn [length]. rewrite firstn_length, app_length. unfold pads. rewrite repeat_length. lia.
+Qed.
+
+(* last channel: the window is 5 entries + x[-1] + 5 pads *)
+Lemma detrend11_last (pre : list F) xl :
+  nth (length pre) (detrend11 O (pre ++ [xl])) zero = zero.
+Proof.
+  rewrite detrend11_nth by (rewrite app_length; cbn; lia).
+  rewrite app_nth2 by lia. replace (length pre - length pre)%nat with 0%nat by lia. cbn [nth].
+  rewrite last_last.
+  set (x0 := hd zero (pre ++ [xl])).
+  set (front := repeat x0 6 ++ pre).
+  assert (E : repeat x0 6 ++ (pre ++ [xl]) ++ repeat xl 6 = front ++ repeat xl 7).
+  { unfold front. rewrite <- !app_assoc. reflexivity. }
+  rewrite E.
+  assert (Hf : length front = (length pre + 6)%nat) by (unfold front; rewrite app_length, repeat_length; lia).
+  rewrite skipn_app. replace (S (length pre) - length front)%nat with 0%nat by lia. rewrite skipn_O.
+  set (a := skipn (S (length pre)) front).
+  assert (Ha : length a = 5%nat) by (unfold a; rewrite skipn_length; lia).
+  rewrite firstn_app, Ha. rewrite firstn_all2 by lia. replace (11 - 5)%nat with 6%nat by lia.
+  rewrite firstn_repeat by lia.
+  replace (a ++ repeat xl 6) with (a ++ repeat xl 6 ++ []) by now rewrite app_nil_r.
+  rewrite majority_median; [ring | cbn [length]; lia].
+Qed.
+
+
+(* with a non-positive dead threshold (the default is -0.5) the first and the last channel are never
+   labelled dead, whatever the recording *)
+Lemma dead_never_at_ends (xcor : list F) sim_lo sim_hi psd_thr out_thr (lf psd : list (option F)) :
+  xcor <> [] -> fltb O zero sim_lo = false ->
+  let hf := map Some (detrend11 O xcor) in
+  length psd = length hf ->
+  nth 0 (label_rule O sim_lo sim_hi psd_thr out_thr hf lf psd) 0 <> 1 /\
+  nth (length xcor - 1) (label_rule O sim_lo sim_hi psd_thr out_thr hf lf psd) 0 <> 1.
+Proof.
+  intros Hne Hlo hf Hp.
+  assert (Hlen : length hf = length xcor) by (unfold hf; now rewrite map_length, detrend11_length).
+  assert (Hn : (0 < length xcor)%nat) by (destruct xcor; [congruence | cbn; lia]).
+  assert (Hnth : forall i, (i < length xcor)%nat -> nth i hf None = Some (nth i (detrend11 O xcor) zero)).
+  { intros i Hi. unfold hf. rewrite (nth_indep _ None (Some zero)) by (rewrite map_length, detrend11_length; exact Hi).
+    apply map_nth. }
+  assert (Hkey : forall i, (i < length xcor)%nat -> nth i (detrend11 O xcor) zero = zero ->
+                 nth i (label_rule O sim_lo sim_hi psd_thr out_thr hf lf psd) 0 <> 1).
+  { intros i Hi Hz.
+    destruct (label_rule_spec O sim_lo sim_hi psd_thr out_thr hf lf psd i Hp ltac:(lia)) as [_ Hv].
+    cbn zeta in Hv. rewrite Hv, (Hnth i Hi), Hz. cbn [flt]. rewrite Hlo.
+    repeat (match goal with |- context [if ?b then _ else _] => destruct b end); discriminate. }
+  split.
+  - apply Hkey; [exact Hn|]. destruct xcor as [|x0 r]; [congruence|]. apply detrend11_first.
+  - destruct (exists_last Hne) as [pre [xl E]]. subst xcor.
+    rewrite app_length. cbn [length]. replace (length pre + 1 - 1)%nat with (length pre) by lia.
+    apply Hkey; [rewrite app_length; cbn; lia | apply detrend11_last].
+Qed.
+
+End DetrendProofs.
+Unset Default Proof Using.
